@@ -1,6 +1,6 @@
 (* C03 -- yanny: object and file never diverge over write/append histories.
    Algorithmic model M of yanny.write() / yanny.append() / a fresh yanny(filename) over an abstract file system,
-   on top of the reader / writer models of coq/Yanny (Parse.parse, Render.render_*), the specification S of a
+   on top of the reader / writer models of coq/Yanny (Parse.parse, Render.render_...), the specification S of a
    history (what the document must be after the operations), and the case type of the correspondence run.
    DEFINITIONS ONLY. *)
 From Coq Require Import String.
